@@ -42,10 +42,44 @@ def check(case):
     return dict(key=key, nontrivial=True, failures=fails, sample=histories.describe(version, order, history))
 
 
+TWINS = [
+    # content-identical anonymous lines (legal: multi-edges), removed by cascade or one by one
+    ("gfa2", ["S\tA\t8\t*", "S\tB\t8\t*", "E\t*\tA+\tB+\t6\t8$\t0\t2\t*", "E\t*\tA+\tB+\t6\t8$\t0\t2\t*"], ["A", "B"]),
+    ("gfa2", ["S\tA\t8\t*", "S\tB\t8\t*", "G\t*\tA+\tB-\t5\t*", "G\t*\tA+\tB-\t5\t*", "F\tA\tx+\t0\t2\t0\t2\t*", "F\tA\tx+\t0\t2\t0\t2\t*"], ["A", "B"]),
+    ("gfa1", ["S\tA\t*", "S\tB\t*", "C\tA\t+\tB\t+\t5\t*", "C\tA\t+\tB\t+\t5\t*"], ["A", "B"]),
+]
+
+
+def twins_case(case):
+    _, version, lines, victim = case
+    fails = []
+    try:
+        g = gfapy.Gfa(lines, vlevel=1)
+        n_anon = len([x for x in state.registered(g) if x.record_type in "ECGF"])
+        g.rm(victim)
+        errs = state.wf_errors(g)
+        if errs:
+            fails.append(dict(signature="C02:twins:%s" % errs[0][0], what=errs[0][1], case=dict(lines=lines, rm=victim)))
+        left = [str(x) for x in state.registered(g) if x.record_type in "ECGF" and any(f.rstrip("+-") == victim for f in str(x).split("\t")[1:5])]
+        if left:
+            fails.append(dict(signature="C02:twins:dependant-survives-its-segment", what="after rm(%s): %s" % (victim, left), case=dict(lines=lines, rm=victim),
+                              reproducer="import gfapy\ng = gfapy.Gfa(%r)\ng.rm(%r)\nprint(str(g))" % (lines, victim)))
+    except Exception as e:
+        fails.append(dict(signature="C02:twins:raises-%s" % type(e).__name__, what=harness.short(e), case=dict(lines=lines, rm=victim)))
+    return dict(key=case, nontrivial=True, failures=fails, sample=dict(lines=lines, rm=victim))
+
+
+def check_any(case):
+    return twins_case(case) if case[0] == "twins" else check(case)
+
+
 if __name__ == "__main__":
     tier, seed = harness.args()
     cs = histories.case_space(tier, seed)
-    res = harness.run(cs, check,
+    for version, lines, victims in TWINS:
+        for v in victims:
+            cs.append(("twins", version, lines, v))
+    res = harness.run(cs, check_any,
                       rule="start documents = closed subsets of <=%d primary catalogue lines (GFA1+GFA2) in forward and reverse arrival order; histories = all sequences of <=%d legal steps "
                            "(rm by identifier, disconnect of anonymous lines, rename to fresh/integer name, add a further catalogue line), capped per level for large documents (VERIF_SEED); "
                            "WF checked at the end of every history (every prefix is its own history). distinct = distinct (document, history)" % ((2, 2) if tier == "quick" else (3, 3)),
